@@ -93,3 +93,59 @@ func strayElementSchedules(outDir string, meta *gen.Meta, thorough bool) (int, e
 	}
 	return n, nil
 }
+
+// resolverExtensions (C06): every resolver call registers a response extension of its own while its siblings run
+// beside it (root fields of a query, list elements).  Whatever the schedule, the response carries one extension per
+// resolver call - none is lost (thorough tier: under the race detector).
+func resolverExtensions(meta *gen.Meta, thorough bool) (int, error) {
+	cfgs := []xeng.Config{xeng.QuickConfigs[0], xeng.QuickConfigs[1]}
+	probes, err := xeng.BuildProbesRace(xeng.ProbeSchema, cfgs, nil, thorough)
+	if err != nil {
+		return 0, err
+	}
+	reps := 150
+	if thorough {
+		reps = 400
+	}
+	n := 0
+	for _, p := range probes {
+		if p.Built.Bin == "" {
+			continue
+		}
+		var cases []xeng.Case
+		for k := 0; k < reps; k++ {
+			q := `query Op { a { a1 } b { id } nodes { id } as { a1 } scalar strict items { id } }`
+			if k%2 == 1 {
+				q = `query Op { as { id kids { id } peer { id } } }`
+			}
+			cases = append(cases, xeng.Case{ID: k, Query: q, Oracle: xeng.NewOracle(), RegisterExt: true, TimeoutMs: 4000})
+		}
+		res, err := xeng.RunAll(p.Built.Bin, cases)
+		if err != nil {
+			return n, err
+		}
+		for k, r := range res {
+			n++
+			if r.Crashed || r.Hang || len(r.Responses) == 0 {
+				continue // reported by the main pass
+			}
+			var resp struct {
+				Extensions map[string]any `json:"extensions"`
+			}
+			_ = json.Unmarshal(r.Responses[0], &resp)
+			calls := 0
+			for _, l := range r.Log {
+				if l[0] == "r" {
+					calls++
+				}
+			}
+			if len(resp.Extensions) != calls {
+				meta.Direct = append(meta.Direct, gen.DirectFinding{Signature: "response-extension-lost",
+					What:   fmt.Sprintf("config %s, %s, run %d: %d resolver calls each registered a response extension of its own, the response carries %d", p.Cfg.Name, cases[k].Query, k, calls, len(resp.Extensions)),
+					Replay: map[string]any{"config": p.Cfg.Name, "query": cases[k].Query, "response": string(r.Responses[0])}})
+				break
+			}
+		}
+	}
+	return n, nil
+}
